@@ -141,6 +141,18 @@ def run(ctx):
                 o.undecided(f"edge iteration `{txt(gen.iter)}` not recognised", fn, gen.iter)
 
     with ctx.obligation("C18.4", "largest component over all vertices") as o:
+        # the graph whose components are measured must keep EVERY vertex of the input: a graph induced by the kept edges
+        # (edge_subgraph, Graph(edge list), from_edgelist) loses the vertices all of whose edges were removed
+        for n in astx.walk_fn(fn.node):
+            if isinstance(n, ast.Call) and prog.external(fn.module, n.func) in ("networkx.connected_components", "networkx.node_connected_component",
+                                                                                   "networkx.number_connected_components") and n.args:
+                m = sc.resolve(n.args[0])
+                induced = (isinstance(m, ast.Call) and isinstance(m.func, ast.Attribute) and m.func.attr == "edge_subgraph") or \
+                    (isinstance(m, ast.Call) and prog.external(fn.module, m.func) in ("networkx.from_edgelist",)) or \
+                    (isinstance(m, ast.Call) and prog.external(fn.module, m.func) == "networkx.Graph" and m.args and isinstance(n.args[0], ast.Call))
+                if induced:
+                    o.violated(fn, n, f"components are measured on `{txt(m)[:70]}`, a graph induced by the KEPT EDGES: vertices that lost all their edges are absent from it, "
+                                      "so an edgeless outcome has no component at all (size 0 instead of 1) and isolated vertices never count", shape_free=True)
         rets = [n for n in astx.walk_fn(fn.node) if isinstance(n, ast.Return)]
         if len(rets) != 1 or rets[0].value is None:
             o.undecided("expected a single return with a value", fn)
